@@ -337,6 +337,35 @@ Definition op_witness_path (req : bexpr) (p : gprog) : list (string * bool) :=
   | None => []
   end.
 
+(** ---- argument-dependent guards ----
+    Some guards depend on an ARGUMENT as well as on the advertised words (BLE [send_pdu]: a PDU
+    carrying a control layer must not be sent to an interface with the NoRawData flag).  Argument
+    tests are [GChoice] nodes labelled with their source text; an assumption is a list of
+    (fragment of a label, branch): a path is consistent with it when every choice whose label
+    contains a fragment takes the stated branch.  Paths that never test the argument are consistent
+    too: the obligation then says the operation must refuse whatever it tested. *)
+Fixpoint prefixb (a b : string) : bool :=
+  match a, b with
+  | EmptyString, _ => true
+  | String x a', String y b' => Ascii.eqb x y && prefixb a' b'
+  | _, _ => false
+  end.
+
+Fixpoint containsb (frag s : string) : bool :=
+  prefixb frag s || match s with EmptyString => false | String _ s' => containsb frag s' end.
+
+Definition path_consistent (asm : list (string * bool)) (path : list (string * bool)) : bool :=
+  forallb (fun a => forallb (fun c => if containsb (fst a) (fst c) then Bool.eqb (snd a) (snd c) else true) path) asm.
+
+Definition op_ok_arg (asm : list (string * bool)) (req : bexpr) (p : gprog) (e : env) : bool :=
+  forallb (fun x => implb (path_consistent asm (fst x)) (op_outcome_ok req e (snd x))) (gpaths p e).
+
+Definition checks_before_sends_op_arg (asm : list (string * bool)) (req : bexpr) (p : gprog) : bool :=
+  forall_envs (op_supp req p) (op_ok_arg asm req p).
+
+Definition op_arg_witness (asm : list (string * bool)) (req : bexpr) (p : gprog) : option env :=
+  find_env (op_supp req p) (fun e => negb (op_ok_arg asm req p e)).
+
 (** A sequence of operations on one connector.  The generated guard programs read no connector
     state: a test on an instance attribute is a [GChoice] (either branch, whatever was called
     before), the only state the translator accepts in a predicate is its own memoisation cache.
